@@ -388,6 +388,62 @@ func enumerate(root val.V) []mutation {
 		}
 	}
 	walk(root, nil, "")
+	// graft: every type description (a map with a type_id) is replaced by a copy of another, differently typed type
+	// description taken from the same document - a well-formed type in a place where that kind of type may not be
+	// allowed (a list as a map's key type, a scope as a one-of member's discriminator type, ...)
+	var donors []val.V
+	seenKinds := map[string]bool{}
+	var collect func(v val.V)
+	collect = func(v val.V) {
+		if strings.HasPrefix(v.T, "map") {
+			for _, e := range v.M {
+				if e.K.S == "type_id" && e.V.T == "string" && !seenKinds[e.V.S] {
+					seenKinds[e.V.S] = true
+					donors = append(donors, v)
+				}
+			}
+			for _, e := range v.M {
+				collect(e.V)
+			}
+		}
+		for _, e := range v.L {
+			collect(e)
+		}
+	}
+	collect(root)
+	var graft func(v val.V, path []step)
+	graft = func(v val.V, path []step) {
+		if strings.HasPrefix(v.T, "map") {
+			tid := ""
+			for _, e := range v.M {
+				if e.K.S == "type_id" && e.V.T == "string" {
+					tid = e.V.S
+				}
+			}
+			if tid != "" {
+				p := append([]step(nil), path...)
+				for _, d := range donors {
+					d := d
+					dk := ""
+					for _, e := range d.M {
+						if e.K.S == "type_id" {
+							dk = e.V.S
+						}
+					}
+					if dk != tid {
+						out = append(out, mutation{p, fmt.Sprintf("graft a %s type over the %s type at %s", dk, tid, pathString(root, p)), func(val.V) val.V { return d }})
+					}
+				}
+			}
+			for i := range v.M {
+				graft(v.M[i].V, append(path, step{false, i}))
+			}
+		}
+		for i := range v.L {
+			graft(v.L[i], append(path, step{true, i}))
+		}
+	}
+	graft(root, nil)
 	out = append(out, mutation{nil, "replace the whole description by a 200-deep list", func(val.V) val.V { return deepList(200) }})
 	return out
 }
@@ -431,8 +487,8 @@ func TestMutatedScopes(t *testing.T) {
 			theWorker = nil
 		}
 	}()
-	perDesc := ev.N(400, 100000)
-	ev.Check(t, "scopes", 12, 300, func(rt *rapid.T) {
+	perDesc := ev.N(400, 20000)
+	ev.Check(t, "scopes", 12, 40, func(rt *rapid.T) {
 		// depth 3 is needed for scopes nested inside the root scope (a property, item or value typed as a scope)
 		o := opts(rapid.IntRange(2, 3).Draw(rt, "depth"))
 		s := gen.Spec(o).Draw(rt, "spec")
@@ -525,8 +581,8 @@ func TestGarbage(t *testing.T) {
 func TestMutatedPluginSchemas(t *testing.T) {
 	w := sup.NewWorker("c10")
 	defer w.Close()
-	perDesc := ev.N(300, 100000)
-	ev.Check(t, "plugins", 6, 150, func(rt *rapid.T) {
+	perDesc := ev.N(300, 20000)
+	ev.Check(t, "plugins", 6, 30, func(rt *rapid.T) {
 		o := opts(1)
 		mk := func(label string) *schema.ScopeSchema {
 			s := gen.Spec(o).Draw(rt, label)
